@@ -41,13 +41,17 @@ type DynObs struct {
 	After   []string `json:"after"`   // server lines after the drain
 	HasFile bool     `json:"has_file"` // the upstream block of every backend exists
 	Per     []PerObs `json:"per"`      // per backend (one resource each): the server lines of ITS upstream block
+	Reloads int      `json:"reloads"`  // reloads / API calls / failed API calls during the events and the drain
+	APICalls int     `json:"api_calls"`
+	APIFails int     `json:"api_fails"`
 	Panic   string   `json:"panic,omitempty"`
 	Error   string   `json:"error,omitempty"`
 }
 
 type PerObs struct {
-	Before  []string `json:"before"`
-	After   []string `json:"after"`
+	Before  []string `json:"before"`  // what NGINX balanced over before the events
+	After   []string `json:"after"`   // the server lines of the FILE after the drain
+	Running []string `json:"running"` // what NGINX balances over after the drain (last reload + API calls)
 	HasFile bool     `json:"has_file"`
 }
 
@@ -56,18 +60,40 @@ type recMgr struct {
 	*nginx.FakeManager
 	conf, stream map[string]string
 	pushed       map[string][]string // upstream -> servers of the last UpdateServersInPlus / UpdateStreamServersInPlus
+	// NGINX as a process: what it balances over is what the files said at the LAST RELOAD, overwritten per
+	// upstream by every successful NGINX Plus API call since.  Files take effect only at Reload.
+	running  map[string][]string
+	fail     map[string]bool // upstreams whose API calls fail (injected)
+	reloads  int
+	apiCalls int
+	apiFails int
 }
 
 func newRecMgr() *recMgr {
 	return &recMgr{FakeManager: nginx.NewFakeManager("/etc/nginx"), conf: map[string]string{}, stream: map[string]string{},
-		pushed: map[string][]string{}}
+		pushed: map[string][]string{}, running: map[string][]string{}, fail: map[string]bool{}}
 }
-func (m *recMgr) UpdateServersInPlus(upstream string, servers []string, _ nginx.ServerConfig) error {
+func (m *recMgr) api(upstream string, servers []string) error {
+	m.apiCalls++
+	if m.fail[upstream] {
+		m.apiFails++
+		return fmt.Errorf("injected NGINX Plus API failure for upstream %s", upstream)
+	}
 	m.pushed[upstream] = append([]string{}, servers...)
+	m.running[upstream] = append([]string{}, servers...)
 	return nil
 }
+func (m *recMgr) UpdateServersInPlus(upstream string, servers []string, _ nginx.ServerConfig) error {
+	return m.api(upstream, servers)
+}
 func (m *recMgr) UpdateStreamServersInPlus(upstream string, servers []string) error {
-	m.pushed[upstream] = append([]string{}, servers...)
+	return m.api(upstream, servers)
+}
+
+// Reload: NGINX loads the files as they are now.
+func (m *recMgr) Reload(_ bool) error {
+	m.reloads++
+	m.running = m.upstreamServers()
 	return nil
 }
 
@@ -194,7 +220,7 @@ func resourceFor(b Backend, i int) ([]obj, string) {
 		return []obj{{"virtualserverroute", vsr}, {"virtualserver", vs}}, configs.NewUpstreamNamerForVirtualServerRoute(vs, vsr).GetNameForUpstream("u")
 	case "ts":
 		ts := &conf_v1.TransportServer{ObjectMeta: meta_v1.ObjectMeta{Namespace: NS, Name: fmt.Sprintf("ts%d", i)}, Spec: conf_v1.TransportServerSpec{
-			Listener:  conf_v1.TransportServerListener{Name: "tcp-5353", Protocol: "TCP"},
+			Listener:  conf_v1.TransportServerListener{Name: fmt.Sprintf("tcp-%d", 5353+i), Protocol: "TCP"},
 			Upstreams: []conf_v1.TransportServerUpstream{{Name: "u", Service: b.Svc, Port: b.PortNum}},
 			Action:    &conf_v1.TransportServerAction{Pass: "u"}}}
 		return []obj{{"transportserver", ts}}, configs.VerifC14TransportServerUpstreamName(ts, "u")
@@ -220,7 +246,11 @@ func runDyn(c *Case) {
 		o.Error = err.Error()
 		return
 	}
-	v, err := k8s.NewVerifC14Dyn(cnf, c.Plus, []conf_v1.Listener{{Name: "tcp-5353", Port: 5353, Protocol: "TCP"}})
+	var listeners []conf_v1.Listener
+	for i := range c.Backends {
+		listeners = append(listeners, conf_v1.Listener{Name: fmt.Sprintf("tcp-%d", 5353+i), Port: 5353 + i, Protocol: "TCP"})
+	}
+	v, err := k8s.NewVerifC14Dyn(cnf, c.Plus, listeners)
 	if err != nil {
 		o.Error = err.Error()
 		return
@@ -255,11 +285,17 @@ func runDyn(c *Case) {
 		return
 	}
 	o.Per = make([]PerObs, len(c.Backends))
-	files := m.upstreamServers()
 	for i := range c.Backends {
-		o.Per[i].Before = sorted(files[ups[i]])
+		o.Per[i].Before = sorted(m.running[ups[i]])
 		o.Before = append(o.Before, o.Per[i].Before...)
 	}
+	// from now on the NGINX Plus API fails for the upstreams of the chosen backends
+	for _, i := range c.APIFail {
+		if i >= 0 && i < len(ups) {
+			m.fail[ups[i]] = true
+		}
+	}
+	m.reloads, m.apiCalls, m.apiFails = 0, 0, 0
 
 	// the change, delivered as watch events: services first, then slices (as the EndpointSlice
 	// controller reacts to the Service)
@@ -314,11 +350,13 @@ func runDyn(c *Case) {
 		o.Error = err.Error()
 		return
 	}
-	files = m.upstreamServers()
+	files := m.upstreamServers()
 	o.HasFile = true
+	o.Reloads, o.APICalls, o.APIFails = m.reloads, m.apiCalls, m.apiFails
 	for i := range c.Backends {
 		s, ok := files[ups[i]]
 		o.Per[i].After, o.Per[i].HasFile = sorted(s), ok
+		o.Per[i].Running = sorted(m.running[ups[i]])
 		o.After = append(o.After, o.Per[i].After...)
 		o.HasFile = o.HasFile && ok
 	}
@@ -338,7 +376,7 @@ func deepCopy[T any](x T) T {
 	return y
 }
 
-var dynOps = []string{"targetport", "targetport", "sliceport", "ready", "addr", "label", "slicedel", "sliceadd", "svcport"}
+var dynOps = []string{"targetport", "targetport", "sliceport", "ready", "addr", "label", "slicedel", "sliceadd", "svcport", "burst", "burst"}
 
 func genDyn(r *vh.Rng, id int) Case {
 	c := Case{ID: id, Fam: "dyn", Class: "dyn", Plus: r.Chance(1, 4)}
@@ -380,6 +418,21 @@ func genDyn(r *vh.Rng, id int) Case {
 			j := r.Intn(k + 1)
 			c.Backends[k], c.Backends[j] = c.Backends[j], c.Backends[k]
 		}
+	} else if r.Chance(1, 2) {
+		// two or three resources of the SAME kind on the Service (e.g. one database on several listeners)
+		c.Backends[0].PortName, c.Backends[0].PortNum, c.Backends[0].Subsel = "", sp.Port, nil
+		for k := 1 + r.Intn(2); k > 0; k-- {
+			c.Backends = append(c.Backends, c.Backends[0])
+		}
+	}
+	// NGINX Plus: the API fails for the upstream of one (sometimes two) of the resources
+	if c.Plus && len(c.Backends) > 1 && r.Chance(1, 2) {
+		c.APIFail = []int{r.Intn(len(c.Backends))}
+		if r.Chance(1, 4) {
+			c.APIFail = append(c.APIFail, r.Intn(len(c.Backends)))
+		}
+	} else if c.Plus && r.Chance(1, 6) {
+		c.APIFail = []int{0}
 	}
 
 	d := &DynSpec{Op: vh.Pick(r, dynOps), Svcs2: deepCopy(c.Svcs), Slices2: deepCopy(c.Slices)}
@@ -389,7 +442,7 @@ func genDyn(r *vh.Rng, id int) Case {
 			mine = append(mine, i)
 		}
 	}
-	if len(mine) == 0 && d.Op != "svcport" {
+	if len(mine) == 0 && d.Op != "svcport" && d.Op != "burst" {
 		d.Op = "sliceadd"
 	}
 	// the number the referenced port currently maps to (for a name: what the slices say)
@@ -466,6 +519,34 @@ func genDyn(r *vh.Rng, id int) Case {
 		d.Slices2 = append(d.Slices2, Slice{Ns: NS, Name: s.Name + "-added", Svc: s.Name,
 			Ports: []SlicePort{{Name: sp.Name, HasNum: true, Num: n, Proto: sp.Proto}},
 			Eps:   []Endp{{Addrs: []string{vh.Pick(r, []string{"10.0.2.3", "fd00::2:3"})}, Ready: 1, Ref: "added-0"}}})
+	case "burst":
+		// a burst of EndpointSlice events: at least three slices of the Service change at once
+		// (readiness flips, new endpoints, new slices), so that at least three tasks are queued
+		// and sync() goes into its batch mode
+		changed := 0
+		for _, i := range mine {
+			if len(d.Slices2[i].Eps) == 0 {
+				d.Slices2[i].Eps = []Endp{{Addrs: []string{fmt.Sprintf("10.0.3.%d", 1+i)}, Ready: 1, Ref: "burst"}}
+			} else {
+				k := r.Intn(len(d.Slices2[i].Eps))
+				if d.Slices2[i].Eps[k].Ready == 1 {
+					d.Slices2[i].Eps[k].Ready = 0
+				} else {
+					d.Slices2[i].Eps[k].Ready = 1
+				}
+			}
+			changed++
+		}
+		n := cur
+		if n == 0 {
+			n = 8080
+		}
+		for k := 0; changed < 3+r.Intn(3); k++ {
+			d.Slices2 = append(d.Slices2, Slice{Ns: NS, Name: fmt.Sprintf("%s-burst%d", s.Name, k), Svc: s.Name,
+				Ports: []SlicePort{{Name: sp.Name, HasNum: true, Num: n, Proto: sp.Proto}},
+				Eps:   []Endp{{Addrs: []string{fmt.Sprintf("10.0.4.%d", 1+k)}, Ready: 1, Ref: fmt.Sprintf("burst-%d", k)}}})
+			changed++
+		}
 	case "svcport":
 		// the number of the service port changes; the backend keeps asking for the old one
 		d.Svcs2[si].Ports[pi].Port = sp.Port + 1
@@ -502,6 +583,37 @@ func dynCorpus() []Case {
 			}
 			cs = append(cs, Case{Fam: "dyn", Class: "dyn-corpus-shared-service", Plus: plus, Svcs: []Svc{svc(8080)}, Slices: []Slice{sl(8080)},
 				Backends: bs, Dyn: &DynSpec{Op: "ready", Svcs2: []Svc{svc(8080)}, Slices2: []Slice{sl2}}})
+		}
+	}
+	// NGINX Plus, several resources of one kind on the Service, the API fails at each position
+	for _, kind := range []string{"ts", "vs", "ing"} {
+		for _, n := range []int{2, 3} {
+			for f := 0; f < n; f++ {
+				var bs []Backend
+				for k := 0; k < n; k++ {
+					bs = append(bs, Backend{Kind: kind, Svc: "web", PortNum: 80})
+				}
+				cs = append(cs, Case{Fam: "dyn", Class: "dyn-corpus-api-failure", Plus: true, Svcs: []Svc{svc(8080)}, Slices: []Slice{sl(8080)},
+					Backends: bs, APIFail: []int{f}, Dyn: &DynSpec{Op: "ready", Svcs2: []Svc{svc(8080)}, Slices2: []Slice{sl2}}})
+			}
+		}
+	}
+	// a burst of three EndpointSlice events (batch mode of sync), every kind, OSS and Plus
+	three := func(r1, r2 int, a3 string) []Slice {
+		mk := func(name, addr string, ready int) Slice {
+			return Slice{Ns: NS, Name: name, Svc: "web", Ports: []SlicePort{{Name: "http", HasNum: true, Num: 8080, Proto: tcp}},
+				Eps: []Endp{{Addrs: []string{addr}, Ready: ready, Ref: name}}}
+		}
+		return []Slice{mk("web-s0", "10.0.0.1", r1), mk("web-s1", "10.0.0.2", r2), mk("web-s2", a3, 1)}
+	}
+	for _, kinds := range [][]string{{"ing"}, {"vs"}, {"vsr"}, {"ts"}, {"ing", "vs", "ts"}} {
+		for _, plus := range []bool{false, true} {
+			var bs []Backend
+			for _, k := range kinds {
+				bs = append(bs, Backend{Kind: k, Svc: "web", PortNum: 80})
+			}
+			cs = append(cs, Case{Fam: "dyn", Class: "dyn-corpus-burst", Plus: plus, Svcs: []Svc{svc(8080)}, Slices: three(1, 0, "10.0.0.3"),
+				Backends: bs, Dyn: &DynSpec{Op: "burst", Svcs2: []Svc{svc(8080)}, Slices2: three(0, 1, "10.0.0.4")}})
 		}
 	}
 	return cs
